@@ -459,6 +459,7 @@ func init() {
 			if o := sys.query("doh", "udp", warm); !strings.HasPrefix(o, "TIMEOUT") && len(o) > 30 {
 				break
 			}
+			time.Sleep(40 * time.Millisecond) // refused at once while the socket is not bound yet: pause before the next try
 		}
 		runDoh := func(proto string, payload []byte, f dohFault) {
 			sys.doh.mu.Lock()
